@@ -172,7 +172,7 @@ Qed.
 (* the same for the public API used without the driver: while no call has returned True the zone is
    untouched, whatever was fed *)
 Lemma feed_not_done_leaves_zone : forall ms s l z,
-  feed s ms = (l, z) -> ~ In (-1) l -> z = pub s.
+  feed s ms = (l, z) -> ~ In rTrue l -> z = pub s.
 Proof.
   induction ms as [|m rest IH]; intros s l z H Hn; cbn [feed] in H.
   - inversion H; reflexivity.
